@@ -1439,3 +1439,35 @@ def comprehension_env(run, model, rule="C06.comprehension-env"):
             ok = stars == [NT] and not call.args and all(kw.arg is None for kw in call.keywords)
             run.check(ok, rule, "%s:compiled-call@%d" % (fi.qual, count), "the compiled code is called with **self._name_to_value (the whole table)", "the compiled code is called with %s instead of the whole name table: a name left out (e.g. one bound to None) is read from the builtins or is undefined inside the compiled code" % ([show(x, 50) for x in stars] or "no keyword table"), fi.loc(n), None, first_line(n.stmt))
     return count
+
+
+def speculative_visit(run, model, rule="C07.speculative-visit"):
+    """The element and filter expressions of a comprehension are evaluated by Python once per item -- not at all when
+    the iterable is empty.  A handler that visits them unconditionally (with the targets unknown, to collect the values
+    that do not depend on the targets) evaluates sub-expressions Python may have skipped:
+    ``all(1 // d > x for x in xs) and flag`` with ``d=0, xs=[], flag=False`` fails inside message generation."""
+    count = 0
+    for name, fields in (("visit_GeneratorExp", ("elt",)), ("visit_ListComp", ("elt",)), ("visit_SetComp", ("elt",)), ("visit_DictComp", ("key", "value"))):
+        fi = model.method("_recompute", "Visitor", name, required=False)
+        if fi is None:
+            continue
+        flow = get_flow(model, fi)
+        run.saw(flow)
+        count += 1
+        spec = []
+        for n in flow.cfg.nodes:
+            for call, c, a in calls_in(n):
+                v = _visit_of(strip_sites(flow.term(call, n)))
+                if v is None:
+                    continue
+                if v[0] == "attr" and v[1] == NODE and v[2] in fields:
+                    spec.append((n, "the %s expression" % v[2]))
+                elif v[0] == "elem" and any(s_[0] == "attr" and s_[2] == "ifs" for s_ in subterms(v)):
+                    spec.append((n, "a filter"))
+        if spec:
+            n, what = spec[0]
+            # one finding per handler, keyed without statement text (refactorings move the statements around)
+            run.violation(rule, fi.qual, "%s of the comprehension is visited unconditionally (%d such visit(s) in this handler): Python evaluates it once per item and not at all for an empty iterable, so a sub-expression that is undefined there (`1 // d` with d == 0) fails inside message generation" % (what, len(spec)), fi.loc(n), None, "speculative visit of element / filter expressions")
+        else:
+            run.ok(rule, fi.qual, "element and filter expressions are not visited speculatively", fi.loc())
+    return count
